@@ -2,4 +2,4 @@
 From Coq Require Import List String.
 Import ListNotations.
 Open Scope string_scope.
-Definition known_unlocked : list string := ["TopK.Insert"; "TopK.Values"; "TopK.Export"; "TopK.WriteTo"; "TopK.Equals"; "CuckooFilter.Length"; "CuckooFilter.Export"; "CuckooFilter.WriteTo"; "CuckooFilter.Equals"; "CountMinSketch.Export"; "CountMinSketch.WriteTo"; "CountMinSketch.Merge"; "CountMinSketch.Equals"; "HyperLogLog.Reset"; "HyperLogLog.Export"; "HyperLogLog.WriteTo"; "HyperLogLog.Merge"; "HyperLogLog.Equals"; "BloomFilter.BloomPositiveRate"; "BloomFilter.Export"; "BloomFilter.WriteTo"; "BloomFilter.Equals"].
+Definition known_unlocked : list string := ["TopK.Equals"; "CuckooFilter.Equals"; "CountMinSketch.Merge"; "CountMinSketch.Equals"; "HyperLogLog.Merge"; "HyperLogLog.Equals"; "BloomFilter.Equals"].
